@@ -1825,14 +1825,28 @@ def exhaustive(runner, family, nbases=120):
     rng = runner.rng
     bounds = [None] + list(range(-5, 6))
     setts = [('member', 'RED'), ('member', 'BLUE'), ('member', 'BOLD')]
+    fam_prop = {'slice': 'C04', 'apply': 'C06', 'remove': 'C07', 'find': 'C17', 'concat': 'C05', 'pad': 'C12'}.get(family, 'C09')
     def base():
-        x = A('abcd')
-        for _ in range(rng.randint(1, 3)):
-            x.apply_formatting(rng.choice(['red', 'blue', 'bold']), rng.choice(bounds) or 0, rng.choice(bounds), rng.random() < 0.7)
-        if rng.random() < 0.3:
-            x.remove_formatting(rng.choice(['red', 'blue', 'bold', None]), rng.choice(bounds) or 0, rng.choice(bounds))
-        return x
-    bases = [A('abcd'), A('abcd', 'red'), A('abcd', 'red', 'blue')] + [base() for _ in range(nbases)]
+        # built with plain library calls: on a broken tree these may raise or leave a value that cannot be
+        # rendered -- that is a finding (C09, and the family's own property), not a reason to stop
+        log = []
+        try:
+            x = A('abcd')
+            for _ in range(rng.randint(1, 3)):
+                args = (rng.choice(['red', 'blue', 'bold']), rng.choice(bounds) or 0, rng.choice(bounds), rng.random() < 0.7)
+                log.append('apply_formatting%r' % (args,))
+                x.apply_formatting(*args)
+            if rng.random() < 0.3:
+                args = (rng.choice(['red', 'blue', 'bold', None]), rng.choice(bounds) or 0, rng.choice(bounds))
+                log.append('remove_formatting%r' % (args,))
+                x.remove_formatting(*args)
+            str(x); [x.settings_at(i) for i in range(4)]
+            return x
+        except Exception as e:   # noqa
+            desc = "AnsiString('abcd') then %s: %r" % ('; '.join(log), e)
+            runner.emit('noop', None, None, desc, [('C09', 'reachable_ok', desc), (fam_prop, 'result_unobservable', desc)])
+            return None
+    bases = [A('abcd'), A('abcd', 'red'), A('abcd', 'red', 'blue')] + [b_ for b_ in (base() for _ in range(nbases)) if b_ is not None]
     runner.live = []
     for x in bases:
         runner.live = [x]
